@@ -27,9 +27,11 @@ import extract  # noqa: E402
 from extract import Src, LostAnchor, Unsupported, norm  # noqa: E402
 
 UNITS_DIR = os.path.join(HERE, "units")
-BUILD = os.path.join(ROOT, "build")
-EVID = os.path.join(ROOT, "evidence")
-VIOL = os.path.join(ROOT, "violations")
+# the three output locations can be redirected (used by vc/seedmatrix.sh to run against a scratch worktree in parallel
+# with normal use); registered commands never set these
+BUILD = os.environ.get("VERIF_BUILD", os.path.join(ROOT, "build"))
+EVID = os.environ.get("VERIF_EVID", os.path.join(ROOT, "evidence"))
+VIOL = os.environ.get("VERIF_VIOL", os.path.join(ROOT, "violations"))
 REPO = extract.REPO
 VERUS_RLIMIT = "30"
 PANIC_KINDS = ("overflow", "div0", "bounds", "unwrap", "pre", "panic", "safety")
